@@ -7,7 +7,10 @@ itself and on every derived representation, and compared with the oracle functor
 oracle image.  Section histories-reads adds the op ["eval"] between assignments on the same object
 (rep[w] for all short words incl. inverse letters, elements(), conjugate / dual / copy built and
 evaluated): whatever the library remembers from a read must not survive a later assignment; states that
-were read at different moments are not merged.  Engine P: word utilities on all words, and cocycle/coboundary matrices of
+were read at different moments are not merged.  In every state reached by an assignment the history is also replayed with a
+HOSTILE CALLER (`hostile_caller`: the caller scales / overwrites in place the arrays it has assigned, before or after copying the
+representation; the copy's own matrices are scaled in place): a representation is defined by the matrices as they were when they
+were assigned.  Section astype-integer: astype('int64') of representations into GL(n, Z).  Engine P: word utilities on all words, and cocycle/coboundary matrices of
 representations with satisfied relations.
 """
 import itertools
@@ -286,6 +289,71 @@ def state_ops(cfg, hist=()):
     return ops
 
 
+# the caller KEEPS the arrays it assigned and goes on using them (the representation stores the inverse letter separately:
+# a generator that follows the caller's array leaves rep[g] rep[G] != I behind).  Only the caller's OWN arrays are touched,
+# never an array read back from rep.generators.
+HOSTILE = ["scale-after-assignment", "overwrite-after-assignment", "scale-after-copy", "copy-edited-in-place"]
+HOSTILE_DOC = {"scale-after-assignment": "the caller scales its array in place (arr *= 2) after every rep[g] = arr",
+               "overwrite-after-assignment": "the caller overwrites its array in place (arr[...] = 3 arr + 1) after every rep[g] = arr",
+               "scale-after-copy": "the caller builds Representation(rep) and then scales the arrays it assigned to rep in place; the COPY is read",
+               "copy-edited-in-place": "the matrices of Representation(rep) (the copy's own table) are scaled in place; the ORIGINAL is read"}
+
+
+def hostile_caller(v, hist, model, simple):
+    """Replay the assignments of the history on a fresh Representation with a caller that, directly after every
+    `rep[g] = arr`, scales its array in place (arr *= 2) / overwrites it in place (arr[...] = 3 arr + 1), or that builds
+    Representation(rep) and THEN scales all the arrays it ever assigned; the table and all words of length <= 2 (of the
+    copy in the third mode) are those of the matrices as they were when they were assigned.  Fourth mode (the other
+    direction of the copy's independence; done here on a replica because a shared table would spoil the state under
+    test): the copy's own matrices are scaled in place, the original keeps its table."""
+    from geometry_tools.representation import Representation
+    cfg = hist[0][1]
+    n = cfg["dim"]
+    mats = alphabet(cfg["alpha"], n)
+    letters = model.letters()
+    words = list(R.all_words(letters, 2))
+    want = stack([model.value(w) for w in words], n)
+    wtab = stack([model.gens[g] for g in letters], n)
+    t = 0
+    for mode in HOSTILE:
+        def replay(mode=mode):
+            rep, held = Representation(), []
+            for op in hist[1:]:
+                if op[0] != "set":
+                    continue
+                arr = mats[op[2]].copy()
+                rep[op[1]] = arr
+                if mode == "scale-after-assignment":
+                    arr *= 2
+                elif mode == "overwrite-after-assignment":
+                    arr[...] = 3 * arr + 1
+                else:
+                    held.append(arr)
+            if mode == "scale-after-copy":
+                rep = Representation(rep)
+                for arr in held:
+                    arr *= 2
+            if mode == "copy-edited-in-place":
+                cp = Representation(rep)
+                for g in list(cp.generators):
+                    cp.generators[g] *= 2
+            if sorted(rep.generators.keys()) != sorted(letters):
+                return None, None
+            return stack([np.asarray(rep.generators[g]) for g in letters], n), stack(evaluate(rep, words, simple), n)
+        r = guard(v, "alias:" + mode, replay)
+        if r is None:
+            continue
+        t += len(words) + 1
+        tab, vals = r
+        key = ("alias/copy-table/" if mode == "copy-edited-in-place" else "alias/caller-array/") + mode
+        what = HOSTILE_DOC[mode]
+        if tab is None:
+            v.append({"key": key, "msg": "%s: generator names differ from the model's %r" % (what, letters)})
+        elif compare(v, key, [(g,) for g in letters], tab, wtab, None, what + ": stored generator vs the matrix that was assigned"):
+            compare(v, key, words, vals, want, None, what + ": rep[w] vs the product of the matrices that were assigned")
+    return t
+
+
 def check_state(hist):
     from geometry_tools import utils as gutils
     from geometry_tools import projective, hyperbolic, representation
@@ -433,6 +501,7 @@ def check_state(hist):
         after = guard(v, "copy:independence", _mutate)
         if after is not None and not np.array_equal(stack(after, n), V[:1 + len(letters)]):
             v.append({"key": "derived/copy/independence", "msg": "assigning %r in the copy changed the original" % g0})
+    ncalls += hostile_caller(v, hist, model, simple)
 
     C = mats[1] if cfg["alpha"] == "gl" else mats[3]
     Ci = R.inverse(C)
@@ -445,6 +514,9 @@ def check_state(hist):
     derived("astype-complex", lambda: rep.astype("complex128"), lambda: T.astype("complex128"), True)
     if allreal:
         derived("astype-float", lambda: rep.astype("float64"), lambda: T.astype("float64"), True)
+    if all(M.dtype.kind in "iu" for M in model.gens.values()):
+        # every generator an exact integer matrix with an integer inverse: the integer dtype holds the whole image
+        derived("astype-int64", lambda: rep.astype("int64"), lambda: T.astype("int64"))
 
     # compose with the lie.hom wrappers (expected: the library's hom on the oracle image where the
     # hom accepts stacks, the oracle functor otherwise)
@@ -940,6 +1012,57 @@ def case_overlap(hist):
 
 
 # ------------------------------------------------------------------------------------------
+# change of dtype to an INTEGER dtype: meaningful for integer-valued representations only, i.e. generators in GL(n, Z).
+# The library stores the inverse letter as a floating-point inverse (entries integers up to rounding error): the integer
+# representation must hold the integers they stand for.
+# ------------------------------------------------------------------------------------------
+def elementary(n):
+    """the 2 n (n-1) elementary matrices I +- E_ij of SL(n, Z), as (i, j, sign)"""
+    return [[i, j, sg] for i in range(n) for j in range(n) if i != j for sg in (1, -1)]
+
+
+def case_astype_int(case):
+    from geometry_tools.representation import Representation
+    n, prefix = case["n"], case["prefix"]
+    I = np.identity(n, dtype="int64")
+    P = I.copy()
+    for (i, j, sg) in prefix:
+        P = P @ (I + _E(n, i, j, sg))
+    v, t, seen = [], 0, []
+    for (i, j, sg) in elementary(n):
+        M = P @ (I + _E(n, i, j, sg))
+        if case["flip"]:
+            M[:, 0] = -M[:, 0]                    # determinant -1
+        Mi = R.inverse(M)
+        assert Mi.dtype.kind == "i" and np.array_equal(M @ Mi, I), "harness: not unimodular"
+        seen.append(int(np.abs(M).max()))
+        for first, tag in (("a", "assigned"), ("A", "assigned-through-inverse-letter")):
+            rep = Representation()
+            rep[first] = M.copy()
+            want = {"a": M, "A": Mi} if first == "a" else {"a": Mi, "A": M}
+            ir = guard(v, "astype-int64/" + tag, lambda: rep.astype("int64"))
+            if ir is None:
+                continue
+            t += 5
+            for w, exp in (("a", want["a"]), ("A", want["A"]), ("aA", I), ("Aa", I), ("aaA", want["a"])):
+                got = np.asarray(ir[w])
+                if not (got.shape == exp.shape and got.dtype.kind in "iu" and np.array_equal(got, exp)):
+                    v.append({"key": "derived/astype-int64/integer-unimodular/" + tag,
+                              "msg": "rep[%r] = %r; rep.astype('int64')[%r] = %r (dtype %s), expected %r"
+                                     % (first, M.tolist(), w, got.tolist(), got.dtype, exp.tolist())})
+                    break
+    return {"v": v[:3], "t": t, "o": "%d|%d|%s|%d" % (n, len(prefix), case["flip"], max(seen)), "nt": True}
+
+
+def astype_int_cases(q):
+    for n, L in ((2, 4 if q else 6), (3, 2 if q else 3), (4, 1 if q else 2)):
+        for k in range(L + 1):
+            for prefix in itertools.product(elementary(n), repeat=k):
+                for flip in (False, True):
+                    yield {"n": n, "prefix": [list(e) for e in prefix], "flip": flip}
+
+
+# ------------------------------------------------------------------------------------------
 # word utilities on all words
 # ------------------------------------------------------------------------------------------
 def case_words(case):
@@ -1177,11 +1300,17 @@ def run(ctx):
                 "assignments on the same object, states that differ in where they were read are kept apart; "
                 "a state is non-trivial when it has at least one generator")
     ctx.assume("generator matrices are invertible (alphabets: |det| >= 0.2, condition number < 60)")
+    ctx.assume("a generator is the matrix that was assigned, as it was at the moment of the assignment: what the caller does afterwards "
+               "with ITS OWN array (in-place scaling, overwriting) changes neither the representation nor its copies, and in-place changes "
+               "of the matrices of Representation(rep) do not reach rep (the library copies caller data elsewhere, e.g. "
+               "CoxeterGroup(matrix=...)); arrays read back from rep.generators of the representation under test are never written to")
     ctx.assume("multi-character names are evaluated through lists and through '*'-strings with element(w, parse_simple=False); "
                "the empty word is given as '' / [] (the '*'-string form of the empty word is not defined)")
     ctx.assume("compose(sl2_irrep), compose(sl2_to_so21) only in states without an integer-dtype generator matrix "
                "(lie.sl2_irrep accumulates in the input dtype)")
-    ctx.assume("astype(float64) only for real representations; HyperbolicRepresentation only on the O(n,1) alphabet")
+    ctx.assume("astype(float64) only for real representations; HyperbolicRepresentation only on the O(n,1) alphabet; astype(int64) only "
+               "for integer-valued representations: every assigned generator an integer-dtype matrix of determinant +-1 (so that the "
+               "inverse letters are integer matrices too)")
     ctx.assume("class contract of representations derived from a ProjectiveRepresentation / HyperbolicRepresentation (values Transformation / Isometry), as "
                "the unchanged library builds them: %r, where 'same' = class and value type of the source (built through self.__class__: copy, "
                "conjugate, dual, astype, subgroup), 'projective' = ProjectiveRepresentation with Transformation values (compose, gln_adjoint; "
@@ -1233,6 +1362,14 @@ def run(ctx):
                              "assignments": "every injective choice of matrices for the generators (quick: a third of them), in name order and reversed with one inverse-first",
                              "derived": STAR_DERIVED, "words": "all '*'-strings of length 1..2 over the names and inverses, through elements()",
                              "oracle": "the same derived representation of an equal Representation() evaluated on LIST words (decided by section histories)"})
+    if want("astype-integer"):
+        ac = list(astype_int_cases(q))
+        ctx.product("astype-integer", "checks.c05:case_astype_int", ac, chunk=16,
+                    domains={"matrices": "every product of at most L + 1 elementary matrices I +- E_ij of SL(n, Z) (the last factor runs inside the case), "
+                                         "and the same with the first column negated (determinant -1); (n, L) = %s" % ("(2,4), (3,2), (4,1)" if q else "(2,6), (3,3), (4,2)"),
+                             "assignment": ["rep['a'] = M", "rep['A'] = M (the generator a is the floating-point inverse)"],
+                             "demand": "rep.astype('int64')[w] for w in a, A, aA, Aa, aaA is the exact integer matrix (oracle: adjugate inverse in rational arithmetic)",
+                             "cases": len(ac)})
     if want("overlapping-names"):
         roots = []
         for names in ("overlap-ab", "overlap-aa"):
